@@ -79,7 +79,7 @@ public:
         }
 
         std::vector<IndexType> cellIndexes;
-        cellIndexes.reserve(nbElementsPerBlock);
+        cellIndexes.reserve(std::min(nbElementsPerBlock, nbParticles));
 
         for(long int idxLevel = configuration.getTreeHeight()-2 ; idxLevel >= 0 ; --idxLevel){
             if(oneGroupPerParent){
@@ -363,7 +363,7 @@ public:
         }
 
         std::vector<IndexType> cellIndexes;
-        cellIndexes.reserve(nbElementsPerBlock);
+        cellIndexes.reserve(std::min(nbElementsPerBlock, nbParticles));
 
         for(long int idxLevel = configuration.getTreeHeight()-2 ; idxLevel >= 0 ; --idxLevel){
             if(oneGroupPerParent){
